@@ -140,13 +140,13 @@ MORE8 = {
     "C03": REQ + " Crash points therefore include every step of a fetch (temp directory, file-by-file checkout, rename into the cache).",
     "C06": REQ + " Modules of required projects count in the once-only, termination and cycle oracles; a required project's module may fail while others wait for it; flaky-disk loads now also hit the resolver.",
     "C08": REQ + " A requirement moved to another version must change the fingerprints of the targets that reach it. Values that hold the same text as str and as bytes.",
-    "C11": "Also: the bare-major spelling path@v1 / path@v0; after a 'latest' get that is not a lowering request the build list holds at least the latest version.",
-    "C15": "Also: an invocation that only loads the project between the corruption and the build (always for the record of an interrupted target, whose must-re-run field is covered with every mask).",
+    "C11": "Also: the bare-major spelling path@v1 / path@v0 and non-canonical spellings (the canonical spelling must give the same requirements); for every modelled query kind the build list holds at least the version the query denotes; upgrade-all reaches the highest tag of each project's major; one long-lived resolver repeats the history and must arrive where fresh resolvers did.",
+    "C15": "Also: an invocation that only loads the project between the corruption and the build (always for the record of an interrupted target, whose must-re-run field is covered with every mask); records damaged while a process holds the project loaded (reload + build); a record whose JSON content changed must not leave its target silently reported up to date.",
     "C18": "Also: a lone 'missing dependency' failure must belong to a target that itself names a missing label; a seventh of the builds go through the REPL's run(label, always=, dry_run=, callback=) builtin, and the event structs its channel-based adapter hands to the Starlark callback are checked against the same protocol.",
     "C20": "Also: in half of the runs releasing a lock is a yield point, so that TryLock / TryRLock can observe a lock held over a critical section without inner synchronisation.",
-    "C04": "Also: in a third of the runs releasing a lock is a yield point of the simulator.",
-    "C05": "Also: in a third of the runs releasing a lock is a yield point of the simulator.",
-    "C09": "Also: in a third of the runs releasing a lock is a yield point of the simulator.",
+    "C04": "Also: in a third of the runs releasing a lock is a yield point of the simulator; a sixth of the runs start with an earlier build of the same process that failed on a cycle and left a target running; project level: watch sessions (a hazard, the failed build, the repair, Reload, build).",
+    "C05": "Also: in a third of the runs releasing a lock is a yield point of the simulator; a sixth of the runs start with an earlier build of the same process that failed on a cycle and left a target running; project level: watch sessions (a hazard, the failed build, the repair, Reload, build).",
+    "C09": "Also: in a third of the runs releasing a lock is a yield point of the simulator; a sixth of the runs start with an earlier build of the same process that failed on a cycle and left a target running; project level: watch sessions (a hazard, the failed build, the repair, Reload, build).",
 }
 for _p, _m in MORE8.items():
     CHECKS[_p]["text"] += " " + _m
